@@ -291,6 +291,14 @@ def explore(ctx, w, fail_at, K, max_fires, n_random, max_dfs=None, shard=None):
             ctx.violation('close()/producer raised %s' % type(rec.error).__name__, dict(witness, error=repr(rec.error)[:200]))
             return
         judge(ctx, w, holder['store'], holder['append_order'], holder['blocked'], holder['close_with'][0], witness, fail_at)
+        # instances are independent: a cassette created later in the process must not touch what an earlier, closed one stored
+        prev = stats.get('prev')
+        if prev is not None and len(prev[0].applied) != prev[1]:
+            ctx.violation('operations of an earlier, already closed cassette instance were applied again by a later instance (%d -> %d applications)' % (
+                prev[1], len(prev[0].applied)), dict(witness, reapplied=[norm(a) for a in prev[0].applied[prev[1]:]][:4]))
+            stats['stop'] = True
+        stats['prev'] = (holder['store'], len(holder['store'].applied))
+        ctx.count('instance_independence_checks')
     runs, complete = S.explore_dfs(make, targets(narrow=True), K, on_run, max_runs=max_dfs, max_fires=max_fires, shard=shard)
     ctx.count('dfs_executions', runs)
     if not complete:
